@@ -214,6 +214,15 @@ def do_replay(pid, path, quiet=False):
             viols = [{'key': 'does-not-terminate:unit-stall',
                       'msg': 'unit stalled again after %d evaluations'
                       % res['after']}]
+    elif doc['payload'].get('kind') == 'unit-rerun':
+        from mc.spec import from_jsonable
+        _PROP, _TIER = prop, doc['payload'].get('tier', 'quick')
+        unit = from_jsonable(doc['payload']['unit'])
+        res = _run_one_inline((0, unit))
+        from mc.explore import clean_key as _ck
+        viols = [{'key': v['key'], 'msg': v['msg']}
+                 for v in res.get('violations', [])
+                 if _ck(v['key']) == doc['payload']['key']]
     else:
         viols = prop.replay(doc['payload'])
     kf = known_findings()
@@ -398,8 +407,24 @@ def main(argv=None):
             rc1, k1, o1 = replay_in_subprocess(pid, rel)
             rc2, k2, o2 = replay_in_subprocess(pid, rel)
             if k1 != k2 or key not in k1:
+                # the single case does not fail on its own: the failure may
+                # depend on what ran before it in the same process (a cache,
+                # a recycled object id). Re-run the WHOLE unit, from a fresh
+                # process, twice.
                 ok = False
-                nonrepro.append((key, k1, k2, o1[-2000:]))
+                if ui < len(units):
+                    from mc.spec import to_jsonable
+                    rel2 = write_replay(pid, key, msg, {
+                        'kind': 'unit-rerun', 'tier': args.tier,
+                        'unit': to_jsonable(units[ui]), 'key': key})
+                    r1 = replay_in_subprocess(pid, rel2)
+                    r2 = replay_in_subprocess(pid, rel2)
+                    if key in r1[1] and key in r2[1]:
+                        ok = True
+                        rel = rel2
+                if not ok:
+                    nonrepro.append((key, k1, k2, o1[-2000:]))
+                    unknown.pop()
         if ok:
             print('VIOLATION property=%s replay=%s' % (pid, rel))
             print('  key=%s (%d occurrences)' % (key, cnt))
@@ -450,7 +475,7 @@ def main(argv=None):
           % (pid, args.tier, len(done), n, agg['states'], agg['transitions'],
              agg['evals'], agg['nontrivial'], len(outcomes), len(unknown),
              len(known_hit), wall, ' CAP-HIT' if cov['cap_hit'] else ''))
-    if harness_errors or nonrepro:
+    if harness_errors or (nonrepro and not unknown):
         for r in harness_errors[:3]:
             print('HARNESS-ERROR in unit %s:\n%s' % (r['unit'], r['trace']),
                   file=sys.stderr)
@@ -458,6 +483,11 @@ def main(argv=None):
             print('HARNESS-ERROR non-reproducing violation %r: %r vs %r\n%s'
                   % x, file=sys.stderr)
         sys.exit(2)
+    for x in nonrepro[:3]:
+        # confirmed violations exist; these further observations did not
+        # reproduce from a fresh process and are not reported as violations
+        print('UNCONFIRMED (not reproduced from a fresh process): %r'
+              % (x[0],), file=sys.stderr)
     sys.exit(1 if unknown else 0)
 
 
